@@ -23,11 +23,12 @@ Proof.
   destruct (parseFrom (fuel_for s) (s ++ [0])); reflexivity.
 Qed.
 
-(* the error fields after the call: this call's error, or what they held before *)
+(* the error fields after the call: this call's error; after a success the model does not say (a failed
+   look-ahead token may have overwritten them) *)
 Lemma parse_with_error_fields o tgt s :
   match parse s with
-  | Syn l c m => o_err (fst (parse_with o tgt s)) = (l, c, Some m)
-  | _ => o_err (fst (parse_with o tgt s)) = o_err o
+  | Syn l c m => o_err (fst (parse_with o tgt s)) = Some (l, c, Some m)
+  | _ => o_err (fst (parse_with o tgt s)) = None
   end.
 Proof.
   unfold parse_with, parse_obj, parse. cbn [o_line attrs_of content_of]. rewrite parseFromInto_empty.
